@@ -11,12 +11,15 @@ def register(PROPS):
                  '(a month may only end on its reported last day); the image is a day of its month (day <= echs_scale_ndim); echs_scale_ndim equals '
                  'the distance of the Gregorian images of adjacent first-of-months; echs_scale_wday equals the weekday of the Gregorian image; '
                  'for Umm al-Qura and Diyanet every Gregorian day and every Hijri y-m-1..29 outside the table comes back as the nul instant. '
-                 'The domain is finite and enumerated completely in both tiers; the same cases are run a second time under ASan+bounds.',
+                 'The domain is finite and enumerated completely in both tiers; the same cases are run a second time under ASan+bounds.  '
+                 'History independence (mode interleave): for every ordered pair of different scales (s1, s2), every Gregorian day z of 1901-2099 and every '
+                 'distance dz in {0, 1, -1, 40, -400} the calls g(z) -> s1, g(z+dz) -> s2, image -> Gregorian are made back to back and must give what the '
+                 'scale-by-scale pass gave for the same arguments (a conversion must not depend on which conversion preceded it).',
         'note': 'The Hijri side has no external reference: the property is internal consistency.  Whether the calendars agree with published tables is not judged '
                 '(a 28-day month in the Umm al-Qura table, Sha\'ban 1364, is counted under months_reported_not_29_or_30_days, not reported).  '
                 'The last month listed in a table (its length is unknown) is not judged in either direction.',
         'rule': 'a case is one (scale, year): mode g2h = every day of one Gregorian year, mode h2g = every date of one Hijri year, mode edge = '
-                'echs_scale_ndim on the 12 months of one Hijri year 1300-1560 of a table calendar; evaluations count single dates/calls; '
+                'echs_scale_ndim on the 12 months of one Hijri year 1300-1560 of a table calendar, mode interleave = all 90 ordered scale pairs over one Gregorian year; evaluations count single dates/calls; '
                 'cases are distinct by construction; non-trivial = at least one date of the year lies inside the calendar (g2h, h2g) resp. at least one '
                 'month of the year lies outside the table (edge); the sanitizer passes repeat the same cases and are not counted again',
         'bound': {
@@ -28,6 +31,8 @@ def register(PROPS):
             D('c15_scale', ['mode=g2h'], label='g2h', shards=4),
             D('c15_scale', ['mode=h2g'], label='h2g', shards=4),
             D('c15_scale', ['mode=edge'], label='edge', shards=2),
+            D('c15_scale', ['mode=interleave'], label='interleave', shards=16),
+            D('c15_scale', ['mode=interleave', 'nocount=1', 'y0=2015', 'y1=2030'], ['mode=interleave', 'nocount=1'], label='interleave-asan', variant='asan', shards=16),
             D('c15_scale', ['mode=g2h', 'nocount=1'], label='g2h-asan', variant='asan', shards=4),
             D('c15_scale', ['mode=h2g', 'nocount=1'], label='h2g-asan', variant='asan', shards=4),
         ],
